@@ -603,6 +603,10 @@ def overused_constant(source: str, *, root_is_static: bool) -> str:
         variable_name = style.rename_variable(
             variable_name, static=best_common_scope is root and root_is_static, private=False
         )
+        if variable_name in blacklisted_names:
+            continue  # The name is already taken
+
+        blacklisted_names = blacklisted_names | {variable_name}
 
         name = ast.Name(id=variable_name)
         # Not core.parse: the result is given a new position below, and must not be shared
